@@ -140,6 +140,19 @@ class C07:
             k = f'{name}|{l.grp}|{l.prec}'
             worst[k] = max(worst.get(k, 0.0), v)
 
+        # structural clause of the property: rplus returns a point of the same shape (containers act
+        # element-wise: same number of elements), rminus returns dof(m) numbers.  The model's output shape is
+        # the one the theorems fix (`C07.*_dof`, container lifts), so a LENGTH disagreement with it is a
+        # property-level failure with this line as the failing input, not only a broken correspondence.
+        for b in breaks:
+            if str(b.get('why', '')).startswith('length'):
+                l = Line(b['line'])
+                if l.op in ('man_rplus', 'man_rminus', 'man_dof'):
+                    mw = str(b.get('model', '')).split()
+                    add(l, 'result_shape', abs(len(l.outs) - len(mw)), 0,
+                        f'{l.op} returns {len(l.outs)} numbers where the shape of the argument requires {len(mw)} '
+                        '(container models act element-wise / dof is the tangent length)')
+
         # independent oracle for the commutative rotation groups: exact angle arithmetic mod 2 pi
         # (math.atan2 of the coefficients; nothing of the library or of the Lean model is used).
         # rminus must be the PRINCIPAL difference: inside (-pi, pi] and congruent to arg(g1) - arg(g2).
